@@ -31,37 +31,38 @@ Section Canon.
   Variable mu : Z -> Z.
   Variable iota : string -> list Z -> Z.
 
-  Lemma canon_cb_good x : wf IdQ x = true -> good IdQ rho mu iota x (canon_cb x).
+  Lemma canon_cb_good x : wf false IdQ x = true -> good false IdQ rho mu iota x (canon_cb x).
   Proof.
     intros W. destruct x as [| | |op args| | | |]; try (simpl in W; discriminate); try (apply good_refl; exact W).
     unfold canon_cb. destruct (is_assoc op) eqn:A; [|apply good_refl; exact W].
     assert (NS : is_shift op = false) by (unfold is_assoc in A; unfold is_shift; destruct (opk_of op); try discriminate; reflexivity).
-    destruct (wf_op_inv IdQ _ _ W NS) as (Wl & a & r & -> & _ & Sl).
-    assert (Hn : 0 < size a) by (inversion Wl; subst; apply (wf_range IdQ rho mu iota); assumption).
+    destruct (wf_op_inv false IdQ _ _ W NS) as (Wl & a & r & -> & _ & Sl).
+    assert (Hn : 0 < size a) by (inversion Wl; subst; apply (wf_range false IdQ rho mu iota); assumption).
     assert (K : exists k, aop_of op = Some k) by (unfold is_assoc in A; unfold aop_of; destruct (opk_of op); try discriminate; eauto).
     destruct K as [k K].
     pose proof (sort_by_perm key_expr (a :: r)) as Pm. fold (canonize_expr_list (a :: r)) in Pm.
     assert (NE : a :: r <> []) by discriminate.
-    assert (G : wf IdQ (EOp op (canonize_expr_list (a :: r))) = true /\ size (EOp op (canonize_expr_list (a :: r))) = size a /\
+    assert (G : wf false IdQ (EOp op (canonize_expr_list (a :: r))) = true /\ size (EOp op (canonize_expr_list (a :: r))) = size a /\
                 eval rho mu iota (EOp op (canonize_expr_list (a :: r))) = eval rho mu iota (EOp op (a :: r))).
     2:{ destruct G as (G1 & G2 & G3). split; [exact G1|]. split; [rewrite G2; symmetry; apply (size_node op); lia | exact G3]. }
-    apply (node_of_list IdQ rho mu iota op k (size a) (a :: r) (canonize_expr_list (a :: r)) K Hn Wl Sl NE).
+    apply (node_of_list false IdQ rho mu iota op k (size a) (a :: r) (canonize_expr_list (a :: r)) K Hn Wl Sl NE).
     - eapply all_perm; [apply Permutation_sym; exact Pm | exact Wl].
     - eapply all_perm; [apply Permutation_sym; exact Pm | exact Sl].
     - intros E. rewrite E in Pm. apply Permutation_nil in Pm. discriminate.
     - rewrite (afold_perm k _ _ (Permutation_map (eval rho mu iota) Pm)). apply cong_refl.
   Qed.
 
-  Theorem canonize_good e : wf IdQ e = true -> good IdQ rho mu iota e (canonize e).
+  Theorem canonize_good e : wf false IdQ e = true -> good false IdQ rho mu iota e (canonize e).
   Proof.
     intros W. unfold canonize.
-    apply (visit_good IdQ rho mu iota (fun x => Ok (canon_cb x))); [|exact W | apply visit_as_visitM].
-    intros x x' Wx Hx. inversion Hx; subst. apply canon_cb_good. exact Wx.
+    apply (visit_good false IdQ rho mu iota (fun x => Ok (canon_cb x))); [| |exact W | apply visit_as_visitM].
+    - intros x x' Wx Hx. inversion Hx; subst. apply canon_cb_good. exact Wx.
+    - intros sg w v x' Hx. inversion Hx; subst. reflexivity.
   Qed.
 End Canon.
 
-Theorem canonize_preserves : forall (Q : string -> Z -> bool -> bool -> bool) e, wf Q e = true ->
-  wf Q (canonize e) = true /\ size (canonize e) = size e /\ forall rho mu iota, eval rho mu iota (canonize e) = eval rho mu iota e.
+Theorem canonize_preserves : forall (Q : string -> Z -> bool -> bool -> bool) e, wf false Q e = true ->
+  wf false Q (canonize e) = true /\ size (canonize e) = size e /\ forall rho mu iota, eval rho mu iota (canonize e) = eval rho mu iota e.
 Proof.
   intros Q e W. destruct (canonize_good Q (fun _ => 0) (fun _ => 0) (fun _ _ => 0) e W) as (A & B & _).
   split; [exact A|]. split; [exact B|]. intros rho mu iota. apply (canonize_good Q rho mu iota e W).
